@@ -53,6 +53,7 @@ def loop : Nat → Bytes → Bool → Bytes → Option Bytes
         if r0 == 117 then          -- 'u'
           if s1.length < 4 then none
           else (parseHex4 (s1.take 4)).map (fun n => (n, s1.drop 4))
+        else if r0 == 34 then some (34, s1)   -- \" (accepted on input only; never written by quoteString)
         else (unescape r0).map (fun r => (Int.ofNat r, s1))
       else some (Int.ofNat r0, s1)
     match step with
